@@ -143,3 +143,64 @@ Definition c23_chk (avail : bool) (p flat : prog) (ordered : list bool) (h : lis
            (impl_outs : list (list val)) (impl_obs : list N) : N :=
   verdict (run_agree avail p (map ext_of h) ordered impl_outs impl_obs)
           (run_agree avail flat (map ext_of h) ordered impl_outs impl_obs).
+
+(* ------------------------------------------------------------------ C25 *)
+
+(* a slot written by a producer (source 0 through [c_prod]), then accessed by closures in access
+   groups in the listed order (sink, source, closure), then drained by a pipe consumer *)
+Record c25_desc := {
+  c_prod : hspec;
+  c_groups : list (nat * nat * (list val -> val -> option (list val * list val)));
+  c_consumer : option nat;
+}.
+
+(* one tick: None = the program panics; otherwise the items per sink *)
+Definition c25_tick (d : c25_desc) (pre : list (list (list val))) (cur : list (list val))
+  : option (list (nat * list val)) :=
+  let slot0 := nth 0 (c_prod d (map (fun s => [port 0 s]) pre) [port 0 cur]) [] in
+  if Nat.ltb 1 (length slot0) then None else
+  let '(slot, outs, bad) :=
+    fold_left (fun (acc : list val * list (nat * list val) * bool) g =>
+                 let '(slot, outs, bad) := acc in
+                 let '(sink, src, f) := g in
+                 let '(slot', o, b) := ref_fold f slot (port src cur) in
+                 (slot', outs ++ [(sink, o)], bad || b))
+              (c_groups d) (slot0, [], false) in
+  if bad then None
+  else Some (match c_consumer d with Some k => outs ++ [(k, slot)] | None => outs end).
+
+Fixpoint c25_run (d : c25_desc) (pre h : list (list (list val))) (t : nat)
+  : option (list (nat * (nat * list val))) :=
+  match h with
+  | [] => Some []
+  | cur :: r =>
+      match c25_tick d pre cur with
+      | None => None
+      | Some outs =>
+          match c25_run d (pre ++ [cur]) r (S t) with
+          | None => None
+          | Some rest => Some (map (fun so => (fst so, (t, snd so))) outs ++ rest)
+          end
+      end
+  end.
+
+Definition c25_expect (d : c25_desc) (h : list (list (list val))) (nsinks : nat) : option (list (list val)) :=
+  match c25_run d [] h 0 with
+  | None => None
+  | Some evs =>
+      Some (map (fun j => concat (map (fun e => if Nat.eqb (fst e) j then tag (fst (snd e)) (snd (snd e)) else []) evs))
+                (seq 0 nsinks))
+  end.
+
+(* bit0 = implementation vs the tick-program model on the real partition (incl. whether it panics);
+   bit1 = implementation vs "the producer settles the slot, then the access groups run one after the
+   other in group order, each for all its items, then the pipe consumer drains the slot" *)
+Definition c25_chk (avail : bool) (p : prog) (d : c25_desc) (ordered : list bool)
+           (h : list (list (list val))) (impl_panic : bool)
+           (impl_outs : list (list val)) (impl_obs : list N) : N :=
+  verdict (if impl_panic then w_panic (fst (drive avail p (map ext_of h)))
+           else run_agree avail p (map ext_of h) ordered impl_outs impl_obs)
+          (match c25_expect d h (length ordered) with
+           | None => impl_panic
+           | Some e => negb impl_panic && outs_eqb ordered impl_outs e
+           end).
